@@ -53,7 +53,7 @@ def hash_exclusions(m):
     """literal exclusion set of the generated hash."""
     fd = m.func(AUG)
     excl = set()
-    for n in ast.walk(fd):
+    for n in m.walk_scope(fd):      # the function and the private helpers it calls
         if isinstance(n, ast.Compare) and len(n.ops) == 1 \
                 and isinstance(n.ops[0], ast.NotEq) \
                 and ast.unparse(n.left).endswith(".name") \
